@@ -49,6 +49,15 @@ seeded/C16-a/patch.diff C16
 seeded/C17-a/patch.diff C17
 seeded/C19-a/patch.diff C19
 seeded/C20-a/patch.diff C20
+seeded/C06-a/patch.diff C06
+seeded/C06-a/patch.diff C08
+seeded/C06-b/patch.diff C06
+seeded/C07-a/patch.diff C07
+seeded/C08-a/patch.diff C08
+seeded/C09-a/patch.diff C09
+seeded/C18-a/patch.diff C18
+selftest/mutants/F5-reintroduce.patch C06
+selftest/mutants/F6-reintroduce.patch C06
 LIST
 rm -f /tmp/selftest.log /tmp/selftest.ev.bak
 [ $fail -eq 0 ] && echo "SELFTEST ok" || echo "SELFTEST FAILED"
